@@ -359,6 +359,17 @@ def long_enum(tier):
                 steps.append(['set', 'T', i, (i + 1) % 5])
             steps.append(['get', 'T', 1250])
             yield {'config': {'type': t, 'default': 0, 'via': via}, 'steps': steps, 'sparse_checks': True}
+    # key indices far beyond the end of the arrays (operators derive indices from their parent's: index * density + offset): the
+    # slot of the new key is a fresh slot like any other (declared default, empty group map), the skipped ones stay unused
+    for t in sorted(TYPES):
+        for d in range(len(TYPES[t][2])):
+            for via in ('store', 'manager'):
+                steps = []
+                for i in (2000, 1999, 4100, 5124, 5125, 6150, 7175, 3):
+                    steps += [['add', 'T', i, 0], ['get', 'T', i], ['add', 'O', i, 0], ['add', 'M', i, 1], ['add_map', i, i % 5],
+                              ['get_map', i, i % 5], ['set', 'T', i, i % 4], ['get', 'T', 2000]]
+                steps += [['del', 'T', 4100], ['add', 'T', 4100, 1], ['get', 'T', 4100], ['flush', 5125]]
+                yield {'config': {'type': t, 'default': d, 'via': via}, 'steps': steps, 'sparse_checks': True, 'far': True}
 
 
 def replay_long(case):
@@ -370,7 +381,7 @@ def replay_long(case):
         sim.step(op)
     sim.check_all = full
     sim.check_all()
-    return {'nontrivial': True, 'labels': ['long-history', 'type:' + case['config']['type'], 'via:' + case['config']['via']]}
+    return {'nontrivial': True, 'labels': ['far-indices' if case.get('far') else 'long-history', 'type:' + case['config']['type'], 'via:' + case['config']['via']]}
 
 
 def subs(tier):
